@@ -102,9 +102,13 @@ class SigmaConversionError(SigmaError):
     def __str__(self) -> str:
         # Identify the rule by its title or identifier: the full object representation contains
         # sets and is therefore not stable across interpreter runs.
-        rule_ident = getattr(self.rule, "title", None) or getattr(self.rule, "id", None)
+        rule_ident = (
+            getattr(self.rule, "title", None)
+            or getattr(self.rule, "id", None)
+            or getattr(self.rule, "name", None)
+        )
         return super().__str__() + " in rule " + (
-            f"'{rule_ident}'" if rule_ident is not None else str(self.rule)
+            f"'{rule_ident}'" if rule_ident is not None else "without title, id and name"
         )
 
 
